@@ -53,7 +53,13 @@ def compiler_value(eng):
                             "coins_per_utxo_byte": 4310, "cost_models": MapM("HashMap")}[f] for f in pd[2]])
     cur = Agg(cq, None, 0, [{"slot": 1000, "hash": VecM([]), "timestamp": 5000000}[f] for f in cd[2]])
     cfg = Agg("Config", None, 0, [none()])
-    return Agg(q, None, 0, [{"pparams": pp, "config": cfg, "latest_tx_body": none(), "cursor": cur}[f] for f in d[2]])
+    # through the real constructor, so that every field (also one a later version adds) gets its initial value
+    try:
+        f = eng.find(short="Compiler::new")
+        return models.deref(eng.call_fn(f, [pp, cfg, cur]))
+    except Unmodelled:
+        known = {"pparams": pp, "config": cfg, "latest_tx_body": none(), "cursor": cur}
+        return Agg(q, None, 0, [known.get(f, Opaque("Compiler." + f)) for f in d[2]])
 
 
 def canon(eng, v):
